@@ -50,6 +50,29 @@ CHECKS = {
               "(thorough; a seeded sample in quick) and random ones on 4-6 nodes with bounds 2..7, under four label maps."),
         note=TB + " Returned floats are converted to the nearest fraction with denominator <= 1000, which must reproduce the float.",
         technique="TLA+ definitions + TLC exhaustive invariants; TLC validation of logged return values (one-call traces)"),
+    "C16": dict(
+        level="model_checking", ref="3 C16",
+        text=("Sampler.tla is a state machine of the discrete part of HyMMSBMSampler (greedy Extract from the remaining degree "
+              "sequence with zero-degree padding / shrinking and the matching flag, Finish, McmcStep = pairwise reshuffle with "
+              "accept/reject, Yield = drop zero weights, map labels back, merge equal hyperedges by summing). TLC explores it "
+              "exhaustively for ALL outcomes of the random choices (4 nodes x 3 hyperedges, degrees <= 2-3, raw weights 0..1-2, "
+              "initial hypergraph / both sequences / one sequence / sampling from the model; thorough also 5 nodes and 4 "
+              "hyperedges) and checks NeverSingleton, DegNeverExceeds, SizeCountNeverExceeds, ExactWhenNoCoincidence (incl. "
+              "soundness of its black-box reading), MatchingMeansExhausted, OutputWellFormed and the whole post-condition "
+              "SamplerPost, plus step assertions (a move keeps both sizes and the union multiset; weights conserved by the "
+              "merge). Every hypergraph yielded by the real sampler (initial_hyg under str/sparse/int labels, matching and "
+              "non-matching (degree, size) sequences with equal totals, sampling from the model, burn-in/thinning >= 0, many "
+              "seeds, 3-4 consecutive samples) is judged by TLC against the conjuncts of SamplerPost through the public API, "
+              "and against a twin sampler built with the same parameters and seed (SeedFunctional). With HGX_VERIF=1 every "
+              "_extract_hye, _mcmc_step and yield is additionally validated as a step of Sampler.tla (model clauses: "
+              "MODEL-DRIFT, never a violation)."),
+        note=TB + " Exactness is applied when num_edges(sample) equals the number of hyperedges asked for (shown equivalent to "
+             "'no coincidence, no zero weight' on the design). Initial hypergraphs have hyperedges of size >= 2; numpy integer "
+             "weights count as integers (type test in Python, sign in TLC). Runs that raise before the first sample (too few "
+             "hyperedges for a move, no zero-degree node to pad with, the degree-only branch) are counted, not judged. "
+             "Exhaustive only for the small universes; real runs are sampled.",
+        technique="TLA+ state machine + TLC exhaustive invariants/step assertions; TLC post-condition validation of every "
+                  "sampled hypergraph; TLC step validation of hooked events (stateful trace validator)"),
 }
 
 NOT_APPLICABLE = {
@@ -102,7 +125,7 @@ def main():
     print("MANIFEST.json: %d checks, %d not_applicable" % (len(checks), len(na)))
 
 
-HOOK_COMMITS = []
+HOOK_COMMITS = ["0508060", "9afb12b"]
 
 if __name__ == "__main__":
     main()
